@@ -1911,9 +1911,7 @@ class StreamingDecoder(object):
 
             for chunk in isEndOfStream(self._substrate):
                 if isinstance(chunk, SubstrateUnderrunError):
-                    yield
-
-                break
+                    yield chunk
 
             if chunk:
                 break
